@@ -3,6 +3,6 @@ EXTENDS Lease, Json
 CONSTANTS EmitCases
 View == <<phase, try, txs, inbox, offer, final, result, oi, fi>>
 Emit == (EmitCases /\ phase = "done") =>
-    PrintT("CASE " \o ToJson([proto |-> Proto, rapid |-> Rapid, tries |-> Tries, script |-> hist, txs |-> txs, result |-> result,
+    PrintT("CASE " \o ToJson([proto |-> Proto, rapid |-> Rapid, inform |-> Inform, tries |-> Tries, script |-> hist, txs |-> txs, result |-> result,
                               offer |-> offer, final |-> final, oi |-> oi, fi |-> fi]))
 =============================================================================
